@@ -462,6 +462,69 @@ theorem updated_task_is_stored (d : Dialect) (db db' : Db) (c : UpdateTaskCmd) (
         exact hp.1.1
       exact ⟨hid, rfl, rfl, rfl, rfl, rfl, rfl⟩
 
+/-- **task completion, acknowledged ⇒ stored.** `201` is answered only on a result reporting exactly one updated row … -/
+theorem task_completion_ack_needs_row (id : String) (counter : Int) (t0 t t2 : Time) (r : TaskRow) (cpls2 : List Cpl) (tk : Option Task)
+    (h : ((completeTask id counter t0).next t [.store [.tasks [r]]]).next t2 cpls2 = .done (some (.task S_CREATED tk))) :
+    cpls2 = [.store [.rows 1]] := by
+  unfold completeTask at h
+  simp only [Co.next, readTaskRow] at h
+  by_cases h1 : (r.toTask.state == T_COMPLETED || r.toTask.state == T_TIMEDOUT) = true
+  · simp [h1, Co.next] at h
+    exact absurd h.1 (by decide)
+  · by_cases h2 : (r.toTask.state == T_INIT || r.toTask.state == T_ENQUEUED) = true
+    · simp [h1, h2, Co.next] at h
+      exact absurd h.1 (by decide)
+    · by_cases h3 : (r.toTask.counter != counter) = true
+      · simp [h1, h2, h3, Co.next] at h
+        exact absurd h.1 (by decide)
+      · simp only [h1, h2, h3, Bool.false_eq_true, if_false, Co.next] at h
+        split at h
+        · simp [errResp] at h
+        · rename_i n
+          split at h
+          · cases h
+          · split at h
+            · cases h
+            · rename_i hn1 hn0
+              have hn0' : n ≠ 0 := by simpa using hn0
+              have : n = 1 := by omega
+              subst this; rfl
+        · cases h
+
+/-- … the transaction it answers for is the guarded update to `completed` (claimed, same counter), so by
+    `updated_task_is_stored` the task row is completed, holder and lease cleared, when the `201` is sent -/
+theorem task_completion_submits (id : String) (counter : Int) (t0 t : Time) (r : TaskRow)
+    (h1 : (r.toTask.state == T_COMPLETED || r.toTask.state == T_TIMEDOUT) = false)
+    (h2 : (r.toTask.state == T_INIT || r.toTask.state == T_ENQUEUED) = false) (h3 : (r.toTask.counter != counter) = false) :
+    ((completeTask id counter t0).next t [.store [.tasks [r]]]).subs =
+      [.store [.updateTask { id := id, processId := none, state := T_COMPLETED, counter := counter, attempt := 0, ttl := 0, expiresAt := 0,
+                             completedOn := some t, currentStates := [T_CLAIMED], currentCounter := counter }]] := by
+  simp only [completeTask, Co.next, readTaskRow, h1, h2, h3, Bool.false_eq_true, if_false, Co.subs]
+
+/-- **heartbeat, acknowledged ⇒ stored.** The count a heartbeat is answered with is the result of its one transaction … -/
+theorem heartbeat_ack_is_the_result (pid : String) (t0 t : Time) (cpls : List Cpl) (n : Nat)
+    (h : (heartbeatTasks pid t0).next t cpls = .done (some (.count S_OK n))) : cpls = [.store [.rows n]] := by
+  unfold heartbeatTasks at h
+  simp only [Co.next] at h
+  split at h
+  · simp [errResp] at h
+  · rename_i m
+    simp only [Co.done.injEq, Option.some.injEq, Resp.count.injEq, true_and] at h
+    subst h; rfl
+  · cases h
+
+/-- … and that result counts exactly the tasks claimed by the process, each of which carries the renewed lease
+    `heartbeat time + its ttl` after the transaction; no other task row changes -/
+theorem heartbeat_rows_are_renewed (d : Dialect) (db db' : Db) (c : HeartbeatTasksCmd) (n : Nat)
+    (h : db.exec (defs d) (.heartbeatTasks c) = .ok (db', .rows n)) :
+    n = countP (fun r : TaskRow => sqlEqO r.processId (some c.processId) && r.state == 4) db.tasks ∧
+    db'.tasks = db.tasks.map (fun r => if sqlEqO r.processId (some c.processId) && r.state == 4 then { r with expiresAt := c.time + r.ttl } else r) := by
+  simp only [Db.exec] at h
+  injection h with h; injection h with hdb hr
+  injection hr with hr
+  subst hdb
+  exact ⟨hr.symm, rfl⟩
+
 /-! ### all or nothing -/
 
 /-- a creation writes the promise and, if it routes, its task in ONE command of ONE transaction -/
